@@ -129,7 +129,13 @@ class BasicContiguousVector<cntgs::Options<Option...>, Parameter...>
     {
     }
 
-    BasicContiguousVector(BasicContiguousVector&&) = default;
+    constexpr BasicContiguousVector(BasicContiguousVector&& other) noexcept
+        : max_element_count_(std::exchange(other.max_element_count_, size_type{})),
+          memory_(std::move(other.memory_)),
+          locator_(std::move(other.locator_))
+    {
+        other.locator_->resize(size_type{}, nullptr);
+    }
 
     BasicContiguousVector& operator=(const BasicContiguousVector& other)
     {
@@ -470,9 +476,10 @@ class BasicContiguousVector<cntgs::Options<Option...>, Parameter...>
     {
         destruct();
         locator_->deallocate(get_allocator());
-        max_element_count_ = other.max_element_count_;
+        max_element_count_ = std::exchange(other.max_element_count_, size_type{});
         memory_ = std::move(other.memory_);
         locator_ = std::move(other.locator_);
+        other.locator_->resize(size_type{}, nullptr);
     }
 
     constexpr void move_assign(BasicContiguousVector&& other)
